@@ -366,6 +366,11 @@ function r(): int { return "str"; }
 echo "before\n";
 echo r(), "\n";
 `},
+	{name: "fn.multi.return", feats: "zy-ext,types", src: `
+function pair(): string, int { return "abc", 123; }
+$s, $n = pair();
+echo $s, $n, "\n";
+`},
 	{name: "fn.recursion", src: `
 function fact($n) { return $n <= 1 ? 1 : $n * fact($n - 1); }
 function fib($n) { if ($n < 2) { return $n; } return fib($n - 1) + fib($n - 2); }
@@ -520,6 +525,20 @@ echo g(), " ", h(), "\n";
 try { try { throw new \InvalidArgumentException("ia"); } catch (\Exception $e) { echo "re,"; throw $e; } } catch (\Throwable $t) { echo get_class($t), ":", $t->getMessage(); } echo "\n";
 try { $r = intdiv(1, 0); } catch (\Throwable $t) { echo "T:", get_class($t); } echo "\n";
 try { null_fn_xyz(); } catch (\Throwable $t) { echo "undefined caught"; } echo "\n";
+`},
+	{name: "exc.throw.in.switch.in.try", feats: "exceptions", src: `
+function f($x) { try { switch ($x) { case 1: throw new \Exception("in switch"); default: echo "dflt,"; } } catch (\Exception $e) { echo "caught ", $e->getMessage(), ","; } finally { echo "fin;"; } }
+f(0); f(1); echo "\n";
+`},
+	{name: "exc.uncaught.in.switch", feats: "exceptions", src: `
+echo "a\n";
+switch (1) { case 1: throw new \Exception("uncaught in switch"); }
+`},
+	{name: "exc.uncaught.in.strict.compare", feats: "exceptions", src: `
+function boom() { throw new \Exception("operand threw"); }
+echo "a\n";
+try { $r = boom() === 1; } catch (\Exception $e) { echo "caught\n"; }
+$r = 1 <=> boom();
 `},
 	{name: "exc.uncaught", feats: "exceptions", src: `
 echo "before\n";
